@@ -193,9 +193,8 @@ pub fn run_c04(out: &mut Out, rng: &mut Rng, thorough: bool) {
     for _ in 0..(if thorough { 400 } else { 40 }) { neigh_case(out, depth, rng.below(nh), "random", true); }
   }
   // out-of-range cell numbers are rejected
-  for depth in [0u8, 1, 5, 16, 29].iter() {
-    let nh = 12u64 << (2 * *depth as u32);
-    for &h in &[nh, nh + 1, nh * 2, u64::MAX >> 1] {
+  for depth in (0u8..=29).collect::<Vec<u8>>().iter() {
+    for &h in crate::util::out_of_range_hashes(*depth, rng, if thorough { 24 } else { 6 }).iter() {
       let r = catch(|| get_or_create(*depth).neighbours(h, false));
       out.rec(&format!("neigh {} {} 0", depth, h), &match &r { Some(m) => map_line(m), None => "panic".into() });
       out.evaluations += 1;
